@@ -231,6 +231,18 @@ def r18c(model: Model, rr: RuleResult):
     last = dfi.body[-1]
     loops = [st for st in dfi.body if isinstance(st, ast.For)]
     good = isinstance(last, ast.Raise) and loops and any(isinstance(n, ast.Call) and norm(n.func) == "all" and "axis.default" in norm(n) and "self.axes" in norm(n) for n in ast.walk(loops[0]))
+    if not good:
+        # the same selection as a search expression: next(<masters at every axis default>, None), raise when it is None
+        dcfg = cfg_of(dfi)
+        pred = any(isinstance(n, ast.Call) and norm(n.func) == "all" and "axis.default" in norm(n) and "self.axes" in norm(n) for n in ast.walk(dfi.node))
+        nx = [n for n in walk_body(dfi) if isinstance(n, ast.Call) and norm(n.func) == "next" and len(n.args) == 2 and norm(n.args[1]) == "None" and "self.masters" in norm(n.args[0])]
+        raises = [st for st in walk_body(dfi) if isinstance(st, ast.Raise)]
+        rets = [st for st in walk_body(dfi) if isinstance(st, ast.Return) and st.value is not None]
+        if pred and len(nx) == 1 and len(raises) == 1 and len(rets) == 1 and isinstance(rets[0].value, ast.Name):
+            var = rets[0].value.id
+            rf = [(norm(e), pol) for e, pol in guard_facts(dcfg, dcfg.node_for(raises[0]))]
+            ds = dcfg.reaching(dcfg.node_for(rets[0]), var)
+            good = (rf in ([(f"{var} is None", True)], [(f"{var} is not None", False)])) and len(ds) == 1 and ds[0].value is nx[0]
     if good:
         rr.ok("default(): returns the master at every axis default, raises when there is none")
     else:
